@@ -60,7 +60,7 @@ def campaign(pid, R):
     if not pats or os.environ.get("VERIF_NO_CAMPAIGN"):
         return
     r = subprocess.run([sys.executable, os.path.join(facts.VERIF, "tools", "run_mutants.py"), pid, "--jobs=8"], cwd=facts.VERIF, stdout=subprocess.PIPE, stderr=subprocess.STDOUT, text=True,
-                       env=dict(os.environ, VERIF_NO_CAMPAIGN="1", VERIF_REPO="/repo"))
+                       env=dict(os.environ, VERIF_NO_CAMPAIGN="1", VERIF_NO_RESULTS="1", VERIF_REPO="/repo"))
     rows = [l for l in r.stdout.splitlines() if " %s " % pid in l or "PATCH-FAILED" in l]
     det = sum(1 for l in rows if " DETECTED" in l)
     R.extra["seeded_variants_applied"] = len([l for l in rows if "PATCH-FAILED" not in l])
